@@ -1049,6 +1049,23 @@ MUTANTS = [
       'mistral/lang/v2/tasks.py',
       "        if params:\n            if not isinstance(self._input, dict):",
       "        if params:\n            if self._input is None:"),
+    m('C12-reverse-skipped-prerequisite-blocks', 'C12', ['R4'],
+      W + 'reverse_workflow.py',
+      "            if t_ex.state in (states.SUCCESS, states.SKIPPED):\n"
+      "                success_t_names.add(t_ex.name)",
+      "            if t_ex.state == states.SUCCESS:\n"
+      "                success_t_names.add(t_ex.name)"),
+    m('C04-reverse-data-from-success-only', 'C04', ['R6'],
+      W + 'reverse_workflow.py',
+      "            if t_ex.state in (states.SUCCESS, states.SKIPPED)\n"
+      "        ]",
+      "            if t_ex.state == states.SUCCESS\n        ]"),
+    m('C04-reverse-error-prerequisite-counts', 'C04', ['R6'],
+      W + 'reverse_workflow.py',
+      "            if t_ex.state in (states.SUCCESS, states.SKIPPED):\n"
+      "                success_t_names.add(t_ex.name)",
+      "            if states.is_completed(t_ex.state):\n"
+      "                success_t_names.add(t_ex.name)"),
 ]
 
 
@@ -1455,4 +1472,10 @@ REFACTORS = [
       "                \"with inline parameters [task_name=%s]\" % "
       "self._name\n            )\n\n"
       "        utils.merge_dicts(self._input, params)"),
+    r('C04-ref-reverse-done-predicate-order', 'C04', W + 'reverse_workflow.py',
+      "            if t_ex.state in (states.SUCCESS, states.SKIPPED):\n"
+      "                success_t_names.add(t_ex.name)",
+      "            if t_ex.state == states.SKIPPED or "
+      "t_ex.state == states.SUCCESS:\n"
+      "                success_t_names.add(t_ex.name)"),
 ]
